@@ -6,6 +6,7 @@ import (
 	"go/ast"
 	"go/printer"
 	"go/token"
+	"go/types"
 	"os"
 	"path/filepath"
 	"regexp"
@@ -659,6 +660,617 @@ func concShape(repo string) (string, error) {
 	fmt.Fprintf(&b, "Definition state_fields : list string := %s.\n", csStrs(fields))
 	fmt.Fprintf(&b, "Definition no_more_imports_uses : list (string * string) := %s.\n", csList(nmi))
 	fmt.Fprintf(&b, "Definition sorted_apps : bool := %s.\n", irBool(sortedApps))
+	r3, err := concShapeRound3(repo, dirs, &unknown)
+	if err != nil {
+		return "", err
+	}
+	b.WriteString(r3)
 	fmt.Fprintf(&b, "Definition unknown : list string := %s.\n", csStrs(unknown))
 	return b.String(), nil
+}
+
+// ---------------------------------------------------------------------------------------------------------------
+// Round 3: state that two compilations could share above the lexer, and the loops of the compile path whose order
+// could reach the model.
+//
+//	infer_views_order        how Parser.inferTypes walks the views of an application: "sorted" (names collected from the
+//	                         map, sort.Strings, slice walked), "map" (ranges over the map itself), else Unknown
+//	anon_counter_scope       where the AnonType_<n>__ counter handed to inferExprType starts: "per-view" (literal 0 in the
+//	                         loop) / "per-app" (a variable declared before the loop and updated from the call's result)
+//	parser_field_writers     every field of parse.Parser with the methods of Parser that assign it or store into it
+//	let_guard                what inferExprType does with a `let` whose scope key is already in p.LetTypes
+//	parser_value_sites       every NewParser() call under pkg/ and cmd/ (no tests): chained / arg / local (the variable is
+//	                         never mentioned in a go statement nor stored in a field or package variable) / else
+//	listener_sites           the same for NewTreeShapeListener()
+//	retrieved_decl / retrieved_protocol
+//	                         the retrieved-file table: where Parse creates it, and the order of Lock / Unlock / accesses
+//	                         of its map / the blocking read in collectSpecs (nesting of if-bodies shown by braces)
+//	file_index_shape         the statements of fileNameToIndex and cleanImportFilename (what identifies two imports)
+//	parse_map_ranges         every `range` over a map in the hand-written files of pkg/parse (typed with the C19 loader),
+//	                         with the C19 body class
+func concShapeRound3(repo string, dirs []string, unknown *[]string) (string, error) {
+	unk := func(f string, a ...interface{}) { *unknown = append(*unknown, fmt.Sprintf(f, a...)) }
+	gf, err := parseGo(repo, "pkg/parse/parse.go")
+	if err != nil {
+		return "", err
+	}
+	pf, fset := gf.file, gf.fset
+	src := func(n ast.Node) string { return csSrc(fset, n) }
+
+	// ---- inferTypes
+	viewsOrder, counter := "Unknown", "Unknown"
+	if fd := irFindFunc(pf, "inferTypes"); fd == nil {
+		unk("inferTypes not found")
+	} else {
+		collected, sorted, viewMaps, declared := map[string]bool{}, map[string]bool{}, map[string]bool{}, map[string]bool{}
+		isViews := func(e ast.Expr) bool {
+			if id, ok := e.(*ast.Ident); ok {
+				return viewMaps[id.Name]
+			}
+			ch := selChain(e)
+			if ch != nil {
+				return ch[len(ch)-1] == "Views"
+			}
+			if se, ok := e.(*ast.SelectorExpr); ok {
+				return se.Sel.Name == "Views"
+			}
+			return false
+		}
+		for _, st := range fd.Body.List {
+			switch s := st.(type) {
+			case *ast.AssignStmt:
+				if s.Tok == token.DEFINE && len(s.Lhs) == 1 && len(s.Rhs) == 1 {
+					if id, ok := s.Lhs[0].(*ast.Ident); ok {
+						declared[id.Name] = true
+						if isViews(s.Rhs[0]) {
+							viewMaps[id.Name] = true
+						}
+					}
+				}
+			case *ast.ExprStmt:
+				if c, ok := s.X.(*ast.CallExpr); ok && irChainIs(c.Fun, "sort", "Strings") && len(c.Args) == 1 {
+					sorted[csRoot(c.Args[0])] = true
+				}
+			case *ast.RangeStmt:
+				if !irContainsCall(s.Body, "p", "inferExprType") {
+					if isViews(s.X) && len(s.Body.List) == 1 && s.Value == nil && s.Key != nil {
+						if as, ok := s.Body.List[0].(*ast.AssignStmt); ok && len(as.Lhs) == 1 && len(as.Rhs) == 1 {
+							if c, ok := as.Rhs[0].(*ast.CallExpr); ok && isIdent(c.Fun, "append") && len(c.Args) == 2 &&
+								isIdent(c.Args[1], s.Key.(*ast.Ident).Name) {
+								collected[csRoot(as.Lhs[0])] = true
+							}
+						}
+					}
+					continue
+				}
+				switch {
+				case isViews(s.X):
+					viewsOrder = "map"
+				case collected[csRoot(s.X)] && sorted[csRoot(s.X)]:
+					viewsOrder = "sorted"
+				}
+				ast.Inspect(s.Body, func(x ast.Node) bool {
+					c, ok := x.(*ast.CallExpr)
+					if !ok || !irChainIs(c.Fun, "p", "inferExprType") || len(c.Args) < 5 {
+						return true
+					}
+					switch a := c.Args[4].(type) {
+					case *ast.BasicLit:
+						if a.Value == "0" {
+							counter = "per-view"
+						}
+					case *ast.Ident:
+						// `_, a, _ = p.inferExprType(..., a, ...)` with a declared before the loop
+						ast.Inspect(s.Body, func(y ast.Node) bool {
+							if as, ok := y.(*ast.AssignStmt); ok && as.Tok == token.ASSIGN && len(as.Rhs) == 1 && as.Rhs[0] == ast.Expr(c) &&
+								len(as.Lhs) == 3 && isIdent(as.Lhs[1], a.Name) && declared[a.Name] {
+								counter = "per-app"
+							}
+							return true
+						})
+					}
+					return true
+				})
+			}
+		}
+		if viewsOrder == "Unknown" {
+			unk("inferTypes: view loop not recognised")
+		}
+		if counter == "Unknown" {
+			unk("inferTypes: anonymous-type counter not recognised")
+		}
+	}
+
+	// ---- parse.Parser: fields and who writes them; the let guard of inferExprType
+	var fields []string
+	ast.Inspect(pf, func(x ast.Node) bool {
+		if ts, ok := x.(*ast.TypeSpec); ok && ts.Name.Name == "Parser" {
+			if st, ok := ts.Type.(*ast.StructType); ok {
+				for _, f := range st.Fields.List {
+					if len(f.Names) == 0 {
+						fields = append(fields, src(f.Type))
+					}
+					for _, n := range f.Names {
+						fields = append(fields, n.Name)
+					}
+				}
+			}
+		}
+		return true
+	})
+	writers := map[string][]string{}
+	var parseFiles []*ast.File
+	for _, p := range csGoFiles(filepath.Join(repo, "pkg/parse")) {
+		rel, _ := filepath.Rel(repo, p)
+		g, err := parseGo(repo, rel)
+		if err != nil {
+			return "", err
+		}
+		if strings.HasPrefix(filepath.Base(p), "verif_") {
+			continue
+		}
+		parseFiles = append(parseFiles, g.file)
+		for _, fd := range funcDecls(g.file) {
+			if recvName(fd) != "Parser" || fd.Body == nil {
+				continue
+			}
+			rv := recvVar(fd)
+			note := func(e ast.Expr) {
+				for {
+					if ix, ok := e.(*ast.IndexExpr); ok {
+						e = ix.X
+						continue
+					}
+					break
+				}
+				if se, ok := e.(*ast.SelectorExpr); ok && isIdent(se.X, rv) {
+					ws := writers[se.Sel.Name]
+					if len(ws) == 0 || ws[len(ws)-1] != fd.Name.Name {
+						writers[se.Sel.Name] = append(ws, fd.Name.Name)
+					}
+				}
+			}
+			ast.Inspect(fd.Body, func(x ast.Node) bool {
+				switch s := x.(type) {
+				case *ast.AssignStmt:
+					for _, l := range s.Lhs {
+						note(l)
+					}
+				case *ast.IncDecStmt:
+					note(s.X)
+				case *ast.CallExpr:
+					if isIdent(s.Fun, "delete") && len(s.Args) > 0 {
+						note(s.Args[0])
+					}
+				}
+				return true
+			})
+		}
+	}
+	var fw []string
+	for _, f := range fields {
+		fw = append(fw, fmt.Sprintf("(%s, %s)", coqStr(f), csStrs(writers[f])))
+	}
+	// functions of pkg/parse that mention p.<field> of an accumulator at all (store targets included): who could READ it
+	var fr []string
+	for _, f := range []string{"AssignTypes", "LetTypes", "Messages"} {
+		var fns []string
+		for _, file := range parseFiles {
+			for _, fd := range funcDecls(file) {
+				if fd.Body == nil {
+					continue
+				}
+				found := false
+				ast.Inspect(fd.Body, func(x ast.Node) bool {
+					if se, ok := x.(*ast.SelectorExpr); ok && se.Sel.Name == f {
+						found = true
+					}
+					return !found
+				})
+				if found {
+					fns = append(fns, fd.Name.Name)
+				}
+			}
+		}
+		fr = append(fr, fmt.Sprintf("(%s, %s)", coqStr(f), csStrs(fns)))
+	}
+	for f := range writers {
+		known := false
+		for _, g := range fields {
+			known = known || f == g
+		}
+		if !known {
+			unk("Parser field %s written but not declared", f)
+		}
+	}
+	letGuard := "Unknown"
+	if fd := irFindFunc(pf, "inferExprType"); fd != nil {
+		ast.Inspect(fd.Body, func(x ast.Node) bool {
+			cc, ok := x.(*ast.CaseClause)
+			if !ok || len(cc.List) != 1 || !strings.HasSuffix(src(cc.List[0]), "Expr_Transform_Stmt_Let") {
+				return true
+			}
+			for _, st := range cc.Body {
+				is, ok := st.(*ast.IfStmt)
+				if !ok || is.Init == nil || !strings.Contains(src(is.Init), "p.LetTypes[") || is.Else == nil {
+					continue
+				}
+				thenInfers := irContainsCall(is.Body, "p", "inferExprType")
+				elseInfers := irContainsCall(is.Else, "p", "inferExprType")
+				elseStores := strings.Contains(src(is.Else), "p.LetTypes[")
+				switch {
+				case !thenInfers && elseInfers && elseStores:
+					letGuard = "seen:skip;new:infer+record"
+				default:
+					letGuard = "Unknown: " + src(is.Init)
+				}
+			}
+			return false
+		})
+	}
+	if strings.HasPrefix(letGuard, "Unknown") {
+		unk("inferExprType: let guard not recognised")
+	}
+
+	// ---- construction sites of Parser and TreeShapeListener values
+	valueSites := func(ctor string) ([]string, error) {
+		var out []string
+		for _, d := range dirs {
+			for _, p := range csGoFiles(d) {
+				b, err := os.ReadFile(p)
+				if err != nil || !bytes.Contains(b, []byte(ctor+"(")) {
+					continue
+				}
+				rel, _ := filepath.Rel(repo, p)
+				g, err := parseGo(repo, rel)
+				if err != nil {
+					return nil, err
+				}
+				if csGenerated(g.file) || strings.HasPrefix(filepath.Base(p), "verif_") {
+					continue
+				}
+				for _, fd := range funcDecls(g.file) {
+					if fd.Body == nil || fd.Name.Name == ctor {
+						continue
+					}
+					out = append(out, csValueSites(rel, fd, ctor)...)
+				}
+			}
+		}
+		return out, nil
+	}
+	pSites, err := valueSites("NewParser")
+	if err != nil {
+		return "", err
+	}
+	lSites, err := valueSites("NewTreeShapeListener")
+	if err != nil {
+		return "", err
+	}
+
+	// ---- the retrieved-file table
+	retrievedDecl := "Unknown"
+	if fd := irFindFunc(pf, "Parse"); fd != nil {
+		for _, st := range fd.Body.List {
+			if as, ok := st.(*ast.AssignStmt); ok && as.Tok == token.DEFINE && len(as.Lhs) == 1 && isIdent(as.Lhs[0], "retrieved") {
+				if cl, ok := as.Rhs[0].(*ast.CompositeLit); ok && src(cl.Type) == "retrievedList" {
+					retrievedDecl = "local of Parse"
+				}
+			}
+		}
+	}
+	if retrievedDecl == "Unknown" {
+		unk("Parse: the retrieved-file table is not a local composite literal")
+	}
+	var protocol []string
+	if fd := irFindFunc(pf, "collectSpecs"); fd == nil {
+		unk("collectSpecs not found")
+	} else {
+		var walk func(n ast.Node)
+		event := func(x ast.Node) (string, bool) {
+			switch e := x.(type) {
+			case *ast.CallExpr:
+				switch {
+				case irChainIs(e.Fun, "retrieved", "mutex", "Lock"):
+					return "Lock", true
+				case irChainIs(e.Fun, "retrieved", "mutex", "Unlock"):
+					return "Unlock", true
+				case irChainIs(e.Fun, "reader", "ReadHashBranch"), irChainIs(e.Fun, "reader", "Read"), irChainIs(e.Fun, "reader", "ReadHash"):
+					return "read-file", true
+				case irChainIs(e.Fun, "g", "Go"):
+					return "spawn-children", true
+				case irChainIs(e.Fun, "g", "Wait"):
+					return "wait-children", true
+				}
+			case *ast.SelectorExpr:
+				if irChainIs(e, "retrieved", "l") {
+					return "table", true
+				}
+			}
+			return "", false
+		}
+		walk = func(n ast.Node) {
+			switch s := n.(type) {
+			case *ast.BlockStmt:
+				for _, st := range s.List {
+					walk(st)
+				}
+			case *ast.IfStmt:
+				before := len(protocol)
+				if s.Init != nil {
+					walk(s.Init)
+				}
+				walk(s.Cond)
+				for _, ev := range protocol[before:] {
+					if ev == "table" { // the condition under which a later claimant leaves
+						protocol = append(protocol, "if:"+src(s.Cond))
+						break
+					}
+				}
+				protocol = append(protocol, "{")
+				walk(s.Body)
+				protocol = append(protocol, "}")
+				if s.Else != nil {
+					protocol = append(protocol, "else{")
+					walk(s.Else)
+					protocol = append(protocol, "}")
+				}
+			case *ast.ReturnStmt:
+				for _, r := range s.Results {
+					walk(r)
+				}
+				protocol = append(protocol, "return")
+			case *ast.AssignStmt:
+				for _, r := range s.Rhs {
+					walk(r)
+				}
+				for _, l := range s.Lhs {
+					before := len(protocol)
+					walk(l)
+					for i := before; i < len(protocol); i++ {
+						if protocol[i] == "table" {
+							protocol[i] = "table-store"
+						}
+					}
+				}
+			case *ast.FuncLit:
+				walk(s.Body)
+			case nil:
+			default:
+				ast.Inspect(n, func(x ast.Node) bool {
+					if x == nil || x == n {
+						return true
+					}
+					switch x.(type) {
+					case *ast.BlockStmt, *ast.IfStmt, *ast.ReturnStmt, *ast.AssignStmt, *ast.FuncLit:
+						walk(x)
+						return false
+					}
+					if ev, ok := event(x); ok {
+						protocol = append(protocol, ev)
+						if ev == "table" {
+							return false
+						}
+					}
+					return true
+				})
+				if ev, ok := event(n); ok {
+					protocol = append(protocol, ev)
+				}
+			}
+		}
+		walk(fd.Body)
+		// drop if-bodies without events (the version / app-name checks), keep the nesting of the others
+		for changed := true; changed; {
+			changed = false
+			for i := 0; i+1 < len(protocol); i++ {
+				if (protocol[i] == "{" || protocol[i] == "else{") && protocol[i+1] == "}" {
+					protocol = append(protocol[:i], protocol[i+2:]...)
+					changed = true
+					break
+				}
+				if (protocol[i] == "{" || protocol[i] == "else{") && protocol[i+1] == "return" && i+2 < len(protocol) && protocol[i+2] == "}" {
+					protocol = append(protocol[:i], protocol[i+3:]...)
+					changed = true
+					break
+				}
+			}
+		}
+	}
+
+	// ---- what identifies an import
+	var indexShape []string
+	for _, fn := range []struct{ file, name string }{{"pkg/parse/parse.go", "fileNameToIndex"}, {"pkg/parse/utils.go", "cleanImportFilename"}} {
+		g, err := parseGo(repo, fn.file)
+		if err != nil {
+			return "", err
+		}
+		fd := irFindFunc(g.file, fn.name)
+		if fd == nil {
+			unk("%s not found", fn.name)
+			continue
+		}
+		for _, st := range fd.Body.List {
+			indexShape = append(indexShape, coqStr(fn.name+": "+csSrc(g.fset, st)))
+		}
+	}
+
+	// ---- map ranges of pkg/parse (hand-written files), typed
+	var ranges []string
+	si := newSrcImporter(repo)
+	if si.modpath == "" {
+		unk("cannot read go.mod")
+	} else if files, info, _ := si.checkTarget("pkg/parse"); info == nil {
+		unk("cannot load pkg/parse")
+	} else {
+		sort.Slice(files, func(i, j int) bool { return si.fset.File(files[i].Pos()).Name() < si.fset.File(files[j].Pos()).Name() })
+		for _, f := range files {
+			name := filepath.Base(si.fset.File(f.Pos()).Name())
+			if csGenerated(f) || strings.HasPrefix(name, "verif_") || strings.HasSuffix(name, "_test.go") {
+				continue
+			}
+			for _, fd := range funcDecls(f) {
+				if fd.Body == nil {
+					continue
+				}
+				n := 0
+				ast.Inspect(fd.Body, func(nd ast.Node) bool {
+					rs, ok := nd.(*ast.RangeStmt)
+					if !ok {
+						return true
+					}
+					isMap, known := isMapType(info.TypeOf(rs.X))
+					if known && !isMap {
+						return true
+					}
+					n++
+					class := "Unknown"
+					if known {
+						class, _ = classifyRange(si, info, fd, rs)
+					} else {
+						unk("pkg/parse %s: type of %s not resolved", funcKey(fd), nodeSrc(si, rs.X))
+					}
+					ranges = append(ranges, fmt.Sprintf("(%s, %s, %s)", coqStr(name+":"+funcKey(fd)), coqStr(strings.Join(strings.Fields(nodeSrc(si, rs.X)), " ")), coqStr(class)))
+					return true
+				})
+			}
+		}
+	}
+	_ = types.Typ
+
+	// ---- package-level variables of the hand-written packages the compile path calls into
+	var depGlobals []string
+	for _, pkg := range []string{"pkg/syslutil", "pkg/pbutil", "pkg/msg", "pkg/env", "pkg/importer", "pkg/printer", "pkg/sysl"} {
+		var files []*ast.File
+		var rels []string
+		for _, p := range csGoFiles(filepath.Join(repo, pkg)) {
+			rel, _ := filepath.Rel(repo, p)
+			g, err := parseGo(repo, rel)
+			if err != nil {
+				return "", err
+			}
+			if strings.HasPrefix(filepath.Base(p), "verif_") {
+				continue
+			}
+			files = append(files, g.file)
+			rels = append(rels, rel)
+		}
+		written := csWritten(files)
+		for i, f := range files {
+			if csGenerated(f) {
+				continue
+			}
+			for _, d := range f.Decls {
+				gd, ok := d.(*ast.GenDecl)
+				if !ok || gd.Tok != token.VAR {
+					continue
+				}
+				for _, sp := range gd.Specs {
+					for _, n := range sp.(*ast.ValueSpec).Names {
+						if n.Name == "_" {
+							continue
+						}
+						class := "written"
+						if !written[n.Name] {
+							class = "init-only"
+						}
+						depGlobals = append(depGlobals, fmt.Sprintf("(%s, %s, %s)", coqStr(rels[i]), coqStr(n.Name), coqStr(class)))
+					}
+				}
+			}
+		}
+	}
+
+	var b strings.Builder
+	b.WriteString("(* round 3 *)\n")
+	fmt.Fprintf(&b, "Definition infer_views_order : string := %s.\n", coqStr(viewsOrder))
+	fmt.Fprintf(&b, "Definition sorted_views : bool := %s.\n", irBool(viewsOrder == "sorted"))
+	fmt.Fprintf(&b, "Definition anon_counter_scope : string := %s.\n", coqStr(counter))
+	fmt.Fprintf(&b, "Definition per_app_counter : bool := %s.\n", irBool(counter == "per-app"))
+	fmt.Fprintf(&b, "Definition parser_field_writers : list (string * list string) := %s.\n", csList(fw))
+	fmt.Fprintf(&b, "Definition let_guard : string := %s.\n", coqStr(letGuard))
+	fmt.Fprintf(&b, "Definition parser_field_users : list (string * list string) := %s.\n", csList(fr))
+	fmt.Fprintf(&b, "Definition parser_value_sites : list (string * string * string) := %s.\n", csList(pSites))
+	fmt.Fprintf(&b, "Definition listener_sites : list (string * string * string) := %s.\n", csList(lSites))
+	fmt.Fprintf(&b, "Definition retrieved_decl : string := %s.\n", coqStr(retrievedDecl))
+	fmt.Fprintf(&b, "Definition retrieved_protocol : list string := %s.\n", csStrs(protocol))
+	fmt.Fprintf(&b, "Definition file_index_shape : list string := %s.\n", csList(indexShape))
+	fmt.Fprintf(&b, "Definition parse_map_ranges : list (string * string * string) := %s.\n", csList(ranges))
+	fmt.Fprintf(&b, "Definition dep_globals : list (string * string * string) := %s.\n", csList(depGlobals))
+	return b.String(), nil
+}
+
+// csValueSites: how fd uses the values it constructs with ctor()
+func csValueSites(rel string, fd *ast.FuncDecl, ctor string) []string {
+	var out []string
+	add := func(class string) {
+		out = append(out, fmt.Sprintf("(%s, %s, %s)", coqStr(rel), coqStr(fd.Name.Name), coqStr(class)))
+	}
+	isCtor := func(e ast.Expr) bool {
+		c, ok := e.(*ast.CallExpr)
+		return ok && csCallee(c) == ctor && len(c.Args) == 0
+	}
+	seen := map[ast.Expr]bool{}
+	ast.Inspect(fd.Body, func(x ast.Node) bool {
+		switch s := x.(type) {
+		case *ast.AssignStmt:
+			if len(s.Lhs) == 1 && len(s.Rhs) == 1 && isCtor(s.Rhs[0]) {
+				seen[s.Rhs[0]] = true
+				id, ok := s.Lhs[0].(*ast.Ident)
+				if !ok || s.Tok != token.DEFINE {
+					add("stored:" + strings.Join(selChain(s.Lhs[0]), "."))
+					return true
+				}
+				class := "local"
+				ast.Inspect(fd.Body, func(y ast.Node) bool {
+					switch t := y.(type) {
+					case *ast.GoStmt:
+						if csUses(t, id.Name) {
+							class = "goroutine"
+						}
+					case *ast.AssignStmt:
+						if t.Tok == token.ASSIGN {
+							for i, r := range t.Rhs {
+								if isIdent(r, id.Name) && i < len(t.Lhs) {
+									if _, plain := t.Lhs[i].(*ast.Ident); !plain {
+										class = "stored:" + strings.Join(selChain(t.Lhs[i]), ".")
+									}
+								}
+							}
+						}
+					case *ast.CallExpr:
+						// errgroup / WaitGroup style: a function literal handed to .Go(...) that mentions the value
+						if se, ok := t.Fun.(*ast.SelectorExpr); ok && se.Sel.Name == "Go" {
+							for _, a := range t.Args {
+								if csUses(a, id.Name) {
+									class = "goroutine"
+								}
+							}
+						}
+					}
+					return true
+				})
+				add(class)
+			}
+		case *ast.CallExpr:
+			if se, ok := s.Fun.(*ast.SelectorExpr); ok && isCtor(se.X) {
+				seen[se.X] = true
+				add("chained:" + se.Sel.Name)
+			}
+			for _, a := range s.Args {
+				if isCtor(a) {
+					seen[a] = true
+					add("arg:" + csCallee(s))
+				}
+			}
+		}
+		return true
+	})
+	ast.Inspect(fd.Body, func(x ast.Node) bool {
+		if e, ok := x.(ast.Expr); ok && isCtor(e) && !seen[e] {
+			add("?other")
+		}
+		return true
+	})
+	return out
 }
